@@ -5,6 +5,7 @@ package main
 import (
 	"fmt"
 	"go/token"
+	"sort"
 	"strings"
 
 	"golang.org/x/tools/go/ssa"
@@ -18,7 +19,7 @@ func init() {
 	})
 	register(&propDef{
 		id:      "C41",
-		explain: "Structural necessary conditions of 'TCPDialer bounds concurrent dials and returns ErrDialTimeout by the deadline': (E1) the dial semaphore is paired: when a concurrency channel exists every path to the dial has acquired a slot (fast or waiting send) and the release is deferred exactly on those paths; the waiting acquisition is a select that includes a timer armed with the remaining time, and its timeout path returns ErrDialTimeout without holding a slot; (R2) the context that bounds the connect is built from the absolute deadline (or from a duration computed after the slot was acquired), so time spent waiting for a slot is not granted again; (R3) every ErrDialTimeout (and every other dial error) leaves tryDial wrapped with the upstream address; (R4) the rotation loop of dial advances the address index after every failed attempt, is counted from a constant (one attempt per resolved address wherever the rotation starts) and stops on ErrDialTimeout; (R5) a failed connect is classified as a timeout by the deadline itself, not only by the context's state. (R6) every tryDial call in TCPDialer.dial is reached only after the once.Do whose body creates the concurrency channel, on every configuration branch; Not decided: real timing, resolver behaviour, the DNS cache (C37).",
+		explain: "Structural necessary conditions of 'TCPDialer bounds concurrent dials and returns ErrDialTimeout by the deadline': (E1) the dial semaphore is paired: when a concurrency channel exists every path to the dial has acquired a slot (fast or waiting send) and the release is deferred exactly on those paths; the waiting acquisition is a select that includes a timer armed with the remaining time, and its timeout path returns ErrDialTimeout without holding a slot; (R2) the context that bounds the connect is built from the absolute deadline (or from a duration computed after the slot was acquired), so time spent waiting for a slot is not granted again; (R3) every ErrDialTimeout (and every other dial error) leaves tryDial wrapped with the upstream address; (R4) the rotation loop of dial advances the address index after every failed attempt, is counted from a constant (one attempt per resolved address wherever the rotation starts) and stops on ErrDialTimeout; (R5) a failed connect is classified as a timeout by the deadline itself, not only by the context's state. (R6) every tryDial call in TCPDialer.dial is reached only after the once.Do whose body creates the concurrency channel, on every configuration branch; (R7) when address resolution fails, dial returns the raw resolver error only on a path that examined the deadline, and ErrDialTimeout wrapped with the upstream address otherwise; Not decided: real timing, resolver behaviour, the DNS cache (C37).",
 		run:     runC41,
 	})
 }
@@ -436,8 +437,71 @@ func semaphoreCreatedBeforeDial(p *Prog, r *Report) {
 	r.Floor("R6", "tryDial calls in TCPDialer.dial", n, 2)
 }
 
+// resolverTimeoutClassified (C41.R7): the dial timeout also covers the resolver. When address resolution fails in
+// TCPDialer.dial, the raw resolver error is returned only on a path that examined the deadline (a comparison of
+// the error with context.DeadlineExceeded, or of the clock with the deadline); otherwise a resolver that hangs until
+// the deadline surfaces as a bare context error instead of ErrDialTimeout wrapped with the upstream address.
+func resolverTimeoutClassified(p *Prog, r *Report) {
+	dial := p.Func("(*TCPDialer).dial")
+	get := p.Func("(*TCPDialer).getTCPAddrs")
+	if dial == nil || get == nil {
+		r.Undecided("R7", "(*TCPDialer).dial / getTCPAddrs", "not found")
+		return
+	}
+	var call *ssa.Call
+	allCalls(dial, func(b *ssa.BasicBlock, c ssa.CallInstruction) {
+		if cv, ok := c.(*ssa.Call); ok && c.Common().StaticCallee() == get {
+			call = cv
+		}
+	})
+	if call == nil {
+		r.Undecided("R7", "TCPDialer.dial: call of getTCPAddrs", "not found")
+		return
+	}
+	n, bad, wrapped := 0, []string{}, false
+	for _, b := range dial.Blocks {
+		rt, ok := b.Instrs[len(b.Instrs)-1].(*ssa.Return)
+		if !ok || len(rt.Results) < 2 {
+			continue
+		}
+		ev := rt.Results[1]
+		if derivesFromValue(ev, call) {
+			if cv, ok := ev.(*ssa.Call); ok && cv.Call.StaticCallee() != nil && cv.Call.StaticCallee().Name() == "wrapDialWithUpstream" {
+				if globalOf(cv.Call.Args[0]) == "ErrDialTimeout" {
+					wrapped = true
+				}
+				continue
+			}
+			if ex, ok := ev.(*ssa.Extract); !ok || ex.Tuple != ssa.Value(call) {
+				continue
+			}
+			n++
+			examined := false
+			for _, g := range guardsOfDepth(b, 1) {
+				if strings.Contains(g.Atom, "DeadlineExceeded") || strings.Contains(g.Atom, "Time.Before") || strings.Contains(g.Atom, "Time.After") || strings.Contains(g.Atom, "time.Until") || strings.Contains(g.Atom, "time.Since") {
+					examined = true
+				}
+			}
+			if !examined {
+				bad = append(bad, p.Pos(rt.Pos()))
+			}
+		}
+		if cv, ok := ev.(*ssa.Call); ok && cv.Call.StaticCallee() != nil && cv.Call.StaticCallee().Name() == "wrapDialWithUpstream" && globalOf(cv.Call.Args[0]) == "ErrDialTimeout" {
+			for _, g := range guardsOfDepth(b, 1) {
+				if strings.Contains(g.Atom, "getTCPAddrs") {
+					wrapped = true
+				}
+			}
+		}
+	}
+	sort.Strings(bad)
+	r.Check("R7", "TCPDialer.dial: a resolver failure is returned as it is only after the deadline was examined, and as ErrDialTimeout otherwise", len(bad) == 0 && wrapped && n > 0, p.Pos(call.Pos()),
+		fmt.Sprintf("raw resolver error returned without a deadline test at: %s; a wrapped ErrDialTimeout on the resolver-failure branch: %v - a resolver that hangs until the dial deadline surfaces as 'context deadline exceeded' instead of ErrDialTimeout with the upstream address", strings.Join(bad, ", "), wrapped))
+}
+
 func runC41(p *Prog, r *Report) {
 	semaphoreCreatedBeforeDial(p, r)
+	resolverTimeoutClassified(p, r)
 	fn := p.Func("(*TCPDialer).tryDial")
 	if fn == nil {
 		r.Undecided("E1", "(*TCPDialer).tryDial", "not found")
